@@ -1,5 +1,6 @@
 import BindgenModel.Model.Analyses
 import BindgenModel.Generated.CodegenOrder
+import BindgenModel.Generated.AnnotationSource
 /-!
 # C08 / C10 — the early answers of `CannotDerive::constrain_type` come in the modelled order
 
@@ -52,5 +53,27 @@ def emptyBase (isOp : Bool) : IR :=
 theorem C10_opaque_empty_base_is_sized :
     ((sizednessInstance (emptyBase false) fun _ => false).solve 4).getD 1 0 = 0 ∧
     ((sizednessInstance (emptyBase true) fun _ => false).solve 4).getD 1 0 = 2 := by decide
+
+/-- what `Annotations::new` answers for a declaration: `own` = the annotation written on the declaration itself,
+`fromBase` = the one libclang's parsed comment would hand over from a base class / overridden method when the
+declaration has no comment; `ownOnly` = the test found in the source -/
+def annotationOf {α : Type} (ownOnly : Bool) (own fromBase : Option α) : Option α :=
+  match own with
+  | some a => some a
+  | none => if ownOnly then none else fromBase
+
+/-- **an annotation speaks about the declaration it is written on**: with the test in place the answer does not
+depend on what the base class carries -/
+theorem C10_annotation_not_inherited {α : Type} (own b₁ b₂ : Option α) :
+    annotationOf true own b₁ = annotationOf true own b₂ := by
+  cases own <;> rfl
+
+/-- without it a `hide` on the base hides the derived class (defect repaired in /repo b0624bff) -/
+theorem C10_annotation_leaked_without_test :
+    annotationOf false (none : Option String) (some "hide") = some "hide" ∧
+    annotationOf true (none : Option String) (some "hide") = none := by decide
+
+/-- **source obligation** -/
+theorem C10_annotations_read_from_own_comment : BindgenModel.Generated.annotationsOwnCommentOnly = true := by decide
 
 end BindgenModel.C10
